@@ -1,5 +1,6 @@
 """C20 -- rasterizers: exactly point_count() points, on the curve, inside its bbox (DESIGN.md section 5, C20)"""
 import json, collections
+import os
 import vlib, C20_syms
 
 VT = ["g8", "rgb8", "rgb8p", "g16", "rgba8", "bgr8", "g32f", "rgb16p"]
@@ -97,6 +98,8 @@ def run(ctx, ops=None):
     obligations, discharged = vlib.standard_proof_steps(ctx)
     if any(b[0] == "theorem" and not b[1].startswith("C20_") for b in ctx.broken):
         discharged = 0      # a helper lemma broke: the module did not compile, nothing after it was checked
+    if not os.path.isfile(os.path.join(ctx.include, "boost/gil/extension/rasterization/line.hpp")):
+        ctx.broken.append(("harness", "include root", "%s does not hold the headers under test" % ctx.include))
     binary, err = vlib.compile_harness(ctx, "harness/C20/main.cpp")
     samples, distinct, extra = [], 0, {}
     if binary is None:
